@@ -37,8 +37,9 @@ def one(sid, own_only):
         env = dict(os.environ, DAWGIE_SRC=os.path.join(tmp, 'Python', 'dawgie'), VERIF_NO_EVIDENCE='1')
         for p in [own] if own_only else PROPS:
             r = subprocess.run(['./check', p, 'quick'], cwd=VERIF, env=env, capture_output=True, text=True)
-            rules = sorted({l.split()[0] for l in r.stdout.splitlines() if l.startswith('  R-') and '[' in l})
-            first = next((l.strip()[:300] for l in r.stdout.splitlines() if l.startswith('  R-') and '[' in l), '')
+            finding = [l for l in r.stdout.splitlines() if l.startswith('  R-') and not l.split()[0].endswith(':') and ' [' in l]
+            rules = sorted({l.split()[0] for l in finding})
+            first = next((l.strip()[:300] for l in finding), '')
             if r.returncode == 2:
                 first = next((l.strip()[:300] for l in r.stdout.splitlines() if 'ANALYSIS-ERROR' in l), '')
             res['checks'][p] = {'rc': r.returncode, 'rules': rules, 'first': first}
